@@ -50,6 +50,8 @@ class MetaSim(mosaik_api_v3.Simulator):
         LOG.append((self.sid, "step", time, copy.deepcopy(inputs), max_advance))
         self.steps += 1
         self.time = time
+        if self.meta.get("mvf_no_self_step"):
+            return None           # event-based / hybrid only: stepped again only when triggered
         return time + self.step_size
 
     def get_data(self, outputs):
